@@ -1079,8 +1079,15 @@ class C16(Property):
                 r = e.get("obs")
                 if obj == "cache" and o[0] == "take" and r and r[0] == "take" and r[2] is False and r[1] is not None:
                     # not loaded: a hit, or the result of an overlapping Take's single flight
-                    if any(o2[0] == "take" and o2[1] == o[1] and r2 and r2[0] == "take" and r2[2] is True and r2[1] == r[1]
-                           and e2["s"] < e["e"] and e["s"] < e2["e"] for o2, e2 in allev for r2 in [e2.get("obs")]):
+                    def same(o2, e2, loaded):
+                        r2 = e2.get("obs")
+                        return (o2[0] == "take" and o2[1] == o[1] and r2 and r2[0] == "take" and r2[1] == r[1]
+                                and r2[2] is loaded)
+                    over = lambda x, y: x["s"] < y["e"] and y["s"] < x["e"]
+                    loaders = [e2 for o2, e2 in allev if same(o2, e2, True)]
+                    if any(over(e2, e) for e2 in loaders) or any(
+                            e2 is not e and same(o2, e2, False) and over(e2, e) and any(over(c, e2) for c in loaders)
+                            for o2, e2 in allev):
                         term = "CJoin %s %s" % (cz(o[1]), cz(r[1]))
                 evs.append("mkLev %s %s %s (%s)" % (cz(e["s"]), cz(e["e"]), self._paren(term),
                                                     _obs(r) if r is not None else "OUnit"))
